@@ -4,7 +4,9 @@ package main
 
 import (
 	"encoding/json"
+
 	"fmt"
+	"github.com/getlantern/zenodb/common"
 	"time"
 )
 
@@ -97,7 +99,18 @@ func runCluCase(e *Env, c *jCluCase) error {
 	for i := range c.Queries {
 		q := &c.Queries[i]
 		now := cl.leader.VerifNow()
-		_, rows, qerr := runQuery(cl.leader, q.SQL("t", t.Conds), q.Mem)
+		var rows []obsRow
+		var qerr error
+		for attempt := 0; attempt < 5; attempt++ {
+			var stats *common.QueryStats
+			_, rows, stats, qerr = runQueryStats(cl.leader, q.SQL("t", t.Conds), q.Mem)
+			if qerr != nil || stats == nil || stats.NumSuccessfulPartitions >= stats.NumPartitions {
+				break
+			}
+			// the leader itself says the answer is incomplete (a partition had no free handler): ask again
+			e.Count("incomplete_answers_retried")
+			time.Sleep(50 * time.Millisecond)
+		}
 		results = append(results, qResult{len(c.Points), q, "", qerr, rows, now})
 		if qerr != nil {
 			msg := qerr.Error()
